@@ -4,9 +4,39 @@ import json, os
 HERE = os.path.dirname(os.path.dirname(os.path.abspath(__file__)))
 
 CHECKS = {
+ "C03": dict(engine="B", category="translation_validation", technique="SMT equivalence (z3) between the meaning of the AST produced by the real parser and the meaning of the expression tree that a Modelica-specification printer turned into the text; texts enumerated, variable values symbolic; literals compared exactly",
+   text="Every expression tree of depth <=2 over all operator classes (thorough: depth 3 on representatives) is printed with minimal, full and redundant parentheses by a printer written from the Modelica grammar; the real parser parses the text; z3 proves the parsed tree and the source tree evaluate equally for all variable values. Number/Boolean/string literals and range expressions are compared with their exact values.",
+   note="Text -> parse tree is executed concretely (ANTLR cannot be run symbolically), so the claim is bounded by the enumerated texts; pow/sin uninterpreted; 0/1 Booleans with and=product, or=sum.", ref="4/C03"),
+ "C09": dict(engine="B", category="translation_validation", technique="SMT (z3, linear real arithmetic): two unsat queries per program prove And(flat equations) <=> And(connection-set reference equations); connect sequences enumerated exhaustively",
+   text="For every ordered sequence of connect clauses within the bound, over inside and outside connectors with potential and flow variables, z3 proves that the equations produced by the real flatten/expand_connectors have exactly the solutions of Modelica connection-set semantics (union-find oracle), for all real values of all variables.",
+   note="Oracle vk/ref/connect_ref.py; components have no own equations; bounded number of connectors/clauses (stated in evidence).", ref="4/C09"),
  "C11": dict(engine="B", category="translation_validation", technique="SMT equivalence (z3, NRA+UF) of the real residual Function's SX DAG against a reference semantics of the flat AST; text family enumerated, all numeric values symbolic",
    text="For every enumerated model (all ordered pairs of C11 operators in both nestings, array subscripts/slices/for-loops/if-equations/functions, plus the repository's models) z3 proves, for all real values of time/states/derivatives/algebraics/inputs/constants/parameters, that each element of the real dae/initial residual Function equals lhs-rhs of the flat equation under the Modelica reference semantics. unsat = holds at every numeric point, which no finite set of evaluation points can establish.",
    note="Trusted: CasADi expand()/evaluation, z3, the reference semantics vk/smt/ast2z3.py (validated on the repository's test models). Real arithmetic (not IEEE), elementary functions uninterpreted, divisors assumed non-zero. Program structure is a bounded enumerated family.", ref="4/C11"),
+ "C12": dict(engine="B", category="translation_validation", technique="SMT equivalence (z3) of the four output Functions (SX DAGs) across all 8 option configurations, for all inputs; variable lists compared concretely",
+   text="For each enumerated model with loops/functions/delays every one of the 8 (unroll_loops, inline_functions, expand_mx) configurations is compiled by the real generate+simplify; z3 proves residual, initial-residual, metadata and delay-argument Functions equal to configuration 0 for all inputs; names/order/types/attributes compared concretely.",
+   note="CasADi expand() trusted; real arithmetic; bounded model family.", ref="4/C12"),
+ "C13": dict(engine="B", category="translation_validation", technique="SMT equivalence (z3) of variable_metadata_function and of every symbolic Variable attribute against the reference meaning of the flat symbol's attribute expression, for all parameter values",
+   text="17 attribute expressions (literal, affine, non-affine) rotated over value/start/min/max/nominal of states/algebraics/inputs/parameters, plus array and Integer/Boolean models: z3 proves each metadata entry and each symbolic Variable attribute equal to the declared expression for all parameter values (the non-affine ones expose a wrongly applied affine rebuild); defaults and Python types compared concretely.",
+   note="NaN/inf defaults are opaque shared constants; bounded model family.", ref="4/C13"),
+ "C14": dict(engine="B", category="translation_validation", technique="SMT with quantifiers (z3): soundness orig=0 => simp=0 & recorded eliminations, completeness simp=0 => exists eliminated. orig=0, on the real residual Functions before/after Model.simplify",
+   text="For every (model, option set) - all 64 subsets of the six interacting simplification options plus further sets, on triangular/affine systems with alias chains of every sign pattern - the real simplify() runs on the real MX graphs and z3 proves solution-set equality (projection) and that every recorded alias sign / constant value holds in every original solution, over all reals.",
+   note="Parameters/constants fixed at declared values; warnings/exceptions count as reported failure; bounded model family.", ref="4/C14"),
+ "C16": dict(engine="B", category="translation_validation", technique="SMT equivalence (z3) of the merged attributes, made symbolic through the real code by declaring them as parameters, against the specification (intersection with sign swap, max nominal, or fixed, start rule)",
+   text="Alias classes of 2-4 (thorough 5) variables, every sign pattern, canonical state/input/algebraic, every subset of explicit starts: the real detect_aliases merging produces CasADi expressions in the attribute parameters and z3 proves them equal to the specification for all parameter values (Variable objects and metadata function).",
+   note="INF modelled as a constant above every attribute parameter; fixed flags literal.", ref="4/C16"),
+ "C18": dict(engine="B", category="translation_validation", technique="SMT equivalence (z3) of expanded vs unexpanded residual/metadata/delay Functions under the renaming x[i,j] -> element; naming rule checked structurally",
+   text="For arrays (1-D, 2-D, size 1), arrays of components holding arrays, derivative arrays and delayed arrays, both code paths of expand_vectors: names/order/outputs/delay states checked against the naming rule, and z3 proves expanded residuals, delay arguments and metadata rows equal to the unexpanded ones under the renaming for all values.",
+   note="Bounded model family; CasADi expand() trusted.", ref="4/C18"),
+ "C19": dict(engine="B", category="translation_validation", technique="SMT equivalence (z3) of the four Functions and all attribute expressions of the CachedModel (real save_model/load_model round trip on disk) against the fresh Model, for all inputs / parameter values",
+   text="7 models x 4 option sets: transfer_model(cache=True) twice on a scratch folder; names, order, types, outputs, delay states, alias relation compared concretely; z3 proves Functions and parameter-dependent attributes equal for all values. codegen: names/metadata only (thorough).",
+   note="pickle/CasADi serialisation executed for real; numeric agreement of compiled shared libraries is outside the claim.", ref="4/C19"),
+ "C22": dict(engine="B", category="translation_validation", technique="enumerated duration dependencies through the real transfer_model for accept/reject; SMT equivalence (z3) of delay_arguments_function outputs with the source delay() arguments",
+   text="Durations drawing on each variable category alone and in pairs, inside/outside for-loops, variable or expression delayed, under several option sets: rejection must be exactly when a disallowed category occurs; for accepted models z3 proves every (expression, duration) output equal to the source arguments for all values.",
+   note="'depends on' = syntactic occurrence; bounded family.", ref="4/C22"),
+ "C24": dict(engine="B", category="translation_validation", technique="generated Python read back with Python's ast (its precedence) -> z3, proved equal to lhs-rhs of the flat equation for all values; classification lists and name injectivity checked structurally",
+   text="For every expression tree over + - * / ^, unary minus, der, sin/cos/tan, time (depth 2, thorough 3) the module generated by the real SymPy backend must compile and each self.eqs entry is proved by z3 equal to the flat equation's residual; x/v/p/c/u/y lists match the flat classification; distinct names must map to distinct symbols.",
+   note="Python's ast gives the precedence SymPy sees; replay executes the generated module with the real SymPy.", ref="4/C24"),
 }
 NA = {
  "C02": "deciding facts are SQLite's file-locking state machine and OS scheduling, none of which is pymoca code; CrossHair executes a single thread and nothing installed explores Python/SQLite interleavings symbolically (DESIGN.md section 5)",
